@@ -19,6 +19,7 @@ drivers/doe_driver.py (DOEDriver.run / _run_case / _parallel_generator).  Decide
 * C23.uniform   uniform draws are taken between the variable's own lower and upper
 * C23.seed      seeded generators seed before the first draw / forward the seed to pydoe
 * C23.apply     DOEDriver sets every (name, value) of a case before solving, re-raises failures
+* C23.units     Driver._set_design_var converts from design-variable units to source units
 * C23.partition parallel case distribution is a partition consistent with the communicator split
 """
 import ast
@@ -102,13 +103,37 @@ def unwrap_iter(e):
     return e
 
 
-def is_items_loop(st):
-    """`for a, b in X.items():` (possibly through sorted()/reversed()/list())"""
-    if not (isinstance(st, ast.For) and isinstance(st.target, ast.Tuple) and len(st.target.elts) == 2 and
-            all(isinstance(e, ast.Name) for e in st.target.elts)):
-        return False
+def dv_parts(st):
+    """(key name, meta name, meta-binding statement or None) of a loop over the design variables, else None.
+
+    Accepted: `for k, m in X.items():` (possibly through sorted()/reversed()/list()) and the keys form
+    `for k in X:` / `for k in X.keys():` whose body binds `m = X[k]` at its top level.
+    """
+    if not isinstance(st, ast.For):
+        return None
     it = unwrap_iter(st.iter)
-    return isinstance(it, ast.Call) and astx.callee_attr(it) == 'items' and not it.args
+    if isinstance(st.target, ast.Tuple) and len(st.target.elts) == 2 and \
+            all(isinstance(e, ast.Name) for e in st.target.elts):
+        if isinstance(it, ast.Call) and astx.callee_attr(it) == 'items' and not it.args:
+            return (st.target.elts[0].id, st.target.elts[1].id, None)
+        return None
+    if isinstance(st.target, ast.Name):
+        base = it
+        if isinstance(it, ast.Call) and astx.callee_attr(it) == 'keys' and not it.args:
+            base = astx.receiver(it)
+        if astx.path(base) is None:
+            return None
+        for b in st.body:
+            if isinstance(b, ast.Assign) and len(b.targets) == 1 and isinstance(b.targets[0], ast.Name) and \
+                    isinstance(b.value, ast.Subscript) and astx.same(b.value.value, base) and \
+                    isinstance(b.value.slice, ast.Name) and b.value.slice.id == st.target.id:
+                return (st.target.id, b.targets[0].id, b)
+    return None
+
+
+def is_items_loop(st):
+    """A loop over the design variables that binds (name, meta) -- see dv_parts."""
+    return dv_parts(st) is not None
 
 
 def is_range_loop(st):
@@ -140,13 +165,32 @@ class Bounds:
     def __init__(self, C, dvloop):
         self.C = C
         self.dv = dvloop
-        self.meta = dvloop.target.elts[1].id
-        self.key = dvloop.target.elts[0].id
+        self.key, self.meta, bind = dv_parts(dvloop)
         self.hdr = C.at(dvloop)
+        self.bind = C.at(bind) if bind is not None else None
         self.carried = None   # (def node, name) of a loop-carried definition found during resolution
 
     def loop_var_ok(self, name, at):
-        return self.C.rd.defs(at, name) == {self.hdr}
+        ds = self.C.rd.defs(at, name)
+        if name == self.meta and self.bind is not None:
+            return ds == {self.bind} and self.C.rd.defs(self.bind, self.key) == {self.hdr}
+        return ds == {self.hdr}
+
+    @staticmethod
+    def merge(res):
+        """Combine the roles of alternative definitions / branches of one value."""
+        if any(r is None for r in res):
+            return None
+        keys = {r[1] for r in res}
+        if len(keys) != 1:
+            return ('B', 'mixed', None)
+        elems = {r[2] for r in res}
+        elems.discard(None)
+        if not elems:
+            return ('B', keys.pop(), None)
+        if len(elems) == 1:
+            return ('B', keys.pop(), elems.pop())
+        return ('B', keys.pop(), 'mixed')
 
     def resolve(self, e, at, seen=()):
         C = self.C
@@ -169,6 +213,15 @@ class Bounds:
                     el = ('expr', astx.src(s))
                 return ('B', base[1], el)
             return None
+        if isinstance(e, ast.IfExp):
+            # `x[k] if isinstance(x, np.ndarray) else x`: either branch, like two definitions
+            rs = []
+            for b in (e.body, e.orelse):
+                r = self.resolve(b, at, seen)
+                if r == CARRIED:
+                    return CARRIED
+                rs.append(r)
+            return self.merge(rs)
         if isinstance(e, ast.BinOp) and isinstance(e.op, ast.Mult):
             for a, b in ((e.left, e.right), (e.right, e.left)):
                 if np_call(b, 'ones', 'ones_like'):
@@ -199,18 +252,7 @@ class Bounds:
                     res.append(r)
                 else:
                     res.append(None)
-            if any(r is None for r in res):
-                return None
-            keys = {r[1] for r in res}
-            if len(keys) != 1:
-                return ('B', 'mixed', None)
-            elems = {r[2] for r in res}
-            elems.discard(None)
-            if not elems:
-                return ('B', keys.pop(), None)
-            if len(elems) == 1:
-                return ('B', keys.pop(), elems.pop())
-            return ('B', keys.pop(), 'mixed')
+            return self.merge(res)
         return None
 
 
@@ -274,6 +316,35 @@ def split_offset(C, e, at):
     return None
 
 
+def step_of(C, n, acc):
+    """(step expression, node where it is evaluated) if CFG node n advances `acc` by a step, else None.
+
+    Accepted: `acc += S`, `acc = acc + S`, `acc = S + acc`, and `acc = t` with `t = acc + S` computed earlier
+    in the same iteration while `acc` was not changed in between.
+    """
+    if n.kind != 'stmt':
+        return None
+    st = n.ast
+    if isinstance(st, ast.AugAssign):
+        return (st.value, n) if isinstance(st.op, ast.Add) else None
+    if not (isinstance(st, ast.Assign) and len(st.targets) == 1):
+        return None
+    e, at = st.value, n
+    if isinstance(e, ast.Name) and e.id != acc:
+        v = C.rd.value(n, e.id)
+        if v is None:
+            return None
+        at = next(iter(C.rd.defs(n, e.id)))
+        e = v
+        if C.rd.defs(at, acc) != C.rd.defs(n, acc):
+            return None
+    if isinstance(e, ast.BinOp) and isinstance(e.op, ast.Add):
+        for a, b in ((e.left, e.right), (e.right, e.left)):
+            if isinstance(a, ast.Name) and a.id == acc:
+                return (b, at)
+    return None
+
+
 def check_offset(C, out, fn, acc, kname, use_stmt, dvloop, kloop, what, keyp, size=None):
     """Offset discipline of accumulator `acc` used (as `acc` or `acc + k`) in use_stmt.
 
@@ -283,8 +354,13 @@ def check_offset(C, out, fn, acc, kname, use_stmt, dvloop, kloop, what, keyp, si
     dvh = C.at(dvloop)
     body = set(g.body_nodes(dvloop))
     ws = writes_to(C, acc, dvloop)
-    incs = [n for n in ws if isinstance(n.ast, ast.AugAssign) and isinstance(n.ast.op, ast.Add)]
+    steps = {n: step_of(C, n, acc) for n in ws}
+    incs = [n for n in ws if steps[n] is not None]
     other = [n for n in ws if n not in incs]
+    if other and not (other[0].kind == 'stmt' and isinstance(other[0].ast, ast.Assign) and
+                      isinstance(other[0].ast.value, ast.Constant)):
+        out.unsure(fn, other[0].ast, f'{what}: write to the offset `{acc}` not recognised')
+        return False
     if other:
         out.bad(fn, other[0].ast, f'{what}: the offset `{acc}` is overwritten inside the design-variable loop '
                 f'(`{astx.src(other[0].ast)}`): following variables read the rows/columns of the wrong variable',
@@ -329,7 +405,7 @@ def check_offset(C, out, fn, acc, kname, use_stmt, dvloop, kloop, what, keyp, si
                     'of an array variable use the row of element 0 / of the next variable', key=f'{keyp}-offset-step')
             return False
         for n in incs:
-            v = n.ast.value
+            v = steps[n][0]
             if not (isinstance(v, ast.Constant) and v.value == 1):
                 out.bad(fn, n.ast, f'{what}: the per-element offset advances by `{astx.src(v)}` instead of 1',
                         key=f'{keyp}-offset-step')
@@ -371,21 +447,21 @@ def check_offset(C, out, fn, acc, kname, use_stmt, dvloop, kloop, what, keyp, si
                 f'is `{acc} + {kname}`: rows are skipped', key=f'{keyp}-offset-step')
         return False
     for n in incs:
-        sv = same_value(C, n.ast.value, n, size, kh)
-        if sv is False or (sv is None and isinstance(n.ast.value, ast.Constant)):
-            out.bad(fn, n.ast, f'{what}: the offset advances by `{astx.src(n.ast.value)}` per design variable but '
+        sv = same_value(C, steps[n][0], steps[n][1], size, kh)
+        if sv is False or (sv is None and isinstance(steps[n][0], ast.Constant)):
+            out.bad(fn, n.ast, f'{what}: the offset advances by `{astx.src(steps[n][0])}` per design variable but '
                     f'the variable occupies `{astx.src(size)}` rows/columns: correct only for variables of that '
                     'size, array variables overlap with their successors', key=f'{keyp}-offset-step')
             return False
-        if sv is None and isinstance(n.ast.value, ast.Name) and isinstance(size, ast.Name):
-            ds_step, ds_size = C.rd.defs(n, n.ast.value.id), C.rd.defs(kh, size.id)
+        if sv is None and isinstance(steps[n][0], ast.Name) and isinstance(size, ast.Name):
+            ds_step, ds_size = C.rd.defs(steps[n][1], steps[n][0].id), C.rd.defs(kh, size.id)
             if ds_step and ds_size and not (ds_step & body) and ds_size <= body:
-                out.bad(fn, n.ast, f'{what}: the offset advances by `{n.ast.value.id}`, which is not recomputed for '
+                out.bad(fn, n.ast, f'{what}: the offset advances by `{steps[n][0].id}`, which is not recomputed for '
                         f'the current design variable, while the variable occupies `{size.id}` rows/columns: '
                         'variables of different sizes overlap or leave gaps', key=f'{keyp}-offset-step')
                 return False
         if sv is None:
-            out.unsure(fn, n.ast, f'{what}: cannot relate step `{astx.src(n.ast.value)}` to the element count '
+            out.unsure(fn, n.ast, f'{what}: cannot relate step `{astx.src(steps[n][0])}` to the element count '
                        f'`{astx.src(size)}`')
             return False
     entry = [m for m, lab in g.succ[dvh] if lab == 'true']
@@ -411,7 +487,7 @@ def covers_elements(C, out, fn, kloop, dvloop, what, keyp):
     a = kloop.iter.args[0]
     kh = C.at(kloop)
     body = set(C.g.body_nodes(dvloop))
-    meta, key = dvloop.target.elts[1].id, dvloop.target.elts[0].id
+    key, meta, _ = dv_parts(dvloop)
 
     def per_dv(nm):
         ds = C.rd.defs(kh, nm)
@@ -745,7 +821,7 @@ def index(repo, out):
             else:
                 out.unsure(P.fn, st, f'definition of `{tgt.value.id}` is not a fresh array per variable')
                 continue
-            if not emit_check(C, out, P.fn, tgt.value.id, dvloop, caseloop, dvloop.target.elts[0].id, 'index',
+            if not emit_check(C, out, P.fn, tgt.value.id, dvloop, caseloop, dv_parts(dvloop)[0], 'index',
                               'case assembly'):
                 continue
             out.ok(P.fn, st, f'{astx.src(tgt)} = {P.V}[{astx.src(off_e)}][design[{astx.src(off_e)}]]; offset `{acc}` '
@@ -1070,14 +1146,24 @@ def emit_check(C, out, fn, val_name, dvloop, caseloop, key_var, keyp, what):
     g = C.g
     dvh = C.at(dvloop)
     dbody = set(g.body_nodes(dvloop))
+    val_node = None
+    if isinstance(val_name, ast.Name):
+        val_name = val_name.id
+    elif isinstance(val_name, ast.AST):
+        val_node, val_name = val_name, astx.src(val_name, 40)
+
+    def is_val(x):
+        return x is val_node if val_node is not None else (isinstance(x, ast.Name) and x.id == val_name)
     apps = []
     for n in dbody:
         if n.kind != 'stmt':
             continue
         for c in n.calls():
-            if astx.callee_attr(c) == 'append' and isinstance(astx.receiver(c), ast.Name) and len(c.args) == 1 and \
-                    val_name in astx.names(c.args[0]):
-                apps.append((n, c))
+            if astx.callee_attr(c) == 'append' and isinstance(astx.receiver(c), ast.Name) and len(c.args) == 1:
+                a0 = c.args[0]
+                if is_val(a0) or (isinstance(a0, ast.Tuple) and any(is_val(x) for x in a0.elts)) or \
+                        (val_node is None and val_name in astx.names(a0)):
+                    apps.append((n, c))
     if not apps:
         out.unsure(fn, dvloop, f'{what}: no `<case>.append(...{val_name}...)` in the design-variable loop')
         return False
@@ -1089,14 +1175,15 @@ def emit_check(C, out, fn, val_name, dvloop, caseloop, key_var, keyp, what):
     for n, c in apps:
         a = c.args[0]
         if isinstance(a, ast.Tuple):
-            if not (len(a.elts) == 2 and isinstance(a.elts[0], ast.Name) and isinstance(a.elts[1], ast.Name)):
+            if not (len(a.elts) == 2 and isinstance(a.elts[0], ast.Name) and
+                    (isinstance(a.elts[1], ast.Name) or is_val(a.elts[1]))):
                 out.unsure(fn, n.ast, f'{what}: appended pair not recognised')
                 return False
-            if a.elts[1].id != val_name or a.elts[0].id != key_var:
+            if not is_val(a.elts[1]) or a.elts[0].id != key_var:
                 out.bad(fn, n.ast, f'{what}: the case entry is `{astx.src(a)}`, expected ({key_var}, {val_name}): the '
                         'value is attached to the wrong name', key=f'{keyp}-emit-pair')
                 return False
-        elif not (isinstance(a, ast.Name) and a.id == val_name):
+        elif not is_val(a):
             out.unsure(fn, n.ast, f'{what}: appended value not recognised')
             return False
     anodes = [n for n, c in apps]
@@ -1290,12 +1377,12 @@ def lhs(repo, out):
             continue
         a = apps[0].args[0]
         ve = a.elts[1] if isinstance(a, ast.Tuple) and len(a.elts) == 2 else a
-        if not isinstance(ve, ast.Name):
-            out.unsure(mf, astx.stmt_of(apps[0]), 'appended value is not a local name')
-            continue
         app_at = C.at(astx.stmt_of(apps[0]))
-        vdef = C.rd.defs(app_at, ve.id)
-        vstmt = next(iter(vdef)).ast if len(vdef) == 1 else astx.stmt_of(apps[0])
+        vstmt = astx.stmt_of(apps[0])
+        if isinstance(ve, ast.Name):
+            vdef = C.rd.defs(app_at, ve.id)
+            if len(vdef) == 1:
+                vstmt = next(iter(vdef)).ast
         try:
             p = poly(ve, app_at, C, B, sample_of)
         except _NoPoly as ex:
@@ -1314,6 +1401,10 @@ def lhs(repo, out):
             continue
         sl, sl_at = slices[0]
         lo, hi = sl.slice.lower, sl.slice.upper
+        if isinstance(hi, ast.Name) and isinstance(lo, ast.Name):
+            hv = C.rd.value(sl_at, hi.id)
+            if hv is not None and C.rd.defs(next(iter(C.rd.defs(sl_at, hi.id))), lo.id) == C.rd.defs(sl_at, lo.id):
+                hi = hv
         if not (isinstance(lo, ast.Name) and sl.slice.step is None and isinstance(hi, ast.BinOp) and
                 isinstance(hi.op, ast.Add)):
             out.unsure(mf, astx.stmt_of(sl), f'design-row slice `{astx.src(sl)}` not of the form row[c:c + size]')
@@ -1330,7 +1421,7 @@ def lhs(repo, out):
         if not check_offset(C, out, mf, acc, '<slice>', astx.stmt_of(sl), dvloop, None, 'Latin-hypercube columns',
                             'lhs', size=width):
             continue
-        if not emit_check(C, out, mf, ve.id, dvloop, rowloop, B.key, 'lhs', 'Latin-hypercube case'):
+        if not emit_check(C, out, mf, ve, dvloop, rowloop, B.key, 'lhs', 'Latin-hypercube case'):
             continue
         # the number of design columns is the sum of the same per-variable size
         CC = ctx_of(cf)
@@ -1372,7 +1463,7 @@ def lhs(repo, out):
             out.unsure(cf, astx.stmt_of(call), f'cannot relate the number of design columns `{astx.src(tot)}` to the '
                        f'per-variable width `{astx.src(wv)}`')
             continue
-        out.ok(mf, vstmt, f'{ve.id} == lower + {rowv}[{acc}:{acc}+size]*(upper - lower); `{acc}` advances by size and is '
+        out.ok(mf, vstmt, f'{astx.src(ve, 40)} == lower + {rowv}[{acc}:{acc}+size]*(upper - lower); `{acc}` advances by size and is '
                'reset per row; one case per design row; columns = sum of sizes')
 
 
@@ -1887,12 +1978,26 @@ def apply(repo, out):
     if len(loops) != 1:
         raise AnalysisError(f'{fn.ident}: expected one loop over `{casep}`, found {len(loops)}')
     loop = loops[0]
-    if not (isinstance(loop.target, ast.Tuple) and len(loop.target.elts) == 2 and
-            all(isinstance(e, ast.Name) for e in loop.target.elts)):
-        out.unsure(fn, loop, 'case entries are not unpacked as (name, value)')
-        return
-    nv, vv = loop.target.elts[0].id, loop.target.elts[1].id
     hdr = C.at(loop)
+    bind = hdr     # node that binds (name, value) of the entry
+    if isinstance(loop.target, ast.Tuple) and len(loop.target.elts) == 2 and \
+            all(isinstance(e, ast.Name) for e in loop.target.elts):
+        nv, vv = loop.target.elts[0].id, loop.target.elts[1].id
+    else:
+        # `for entry in case: name, value = entry` (unpacked first thing in the body)
+        nv = None
+        if isinstance(loop.target, ast.Name):
+            for b in loop.body:
+                if isinstance(b, ast.Assign) and len(b.targets) == 1 and isinstance(b.targets[0], ast.Tuple) and \
+                        len(b.targets[0].elts) == 2 and all(isinstance(e, ast.Name) for e in b.targets[0].elts) and \
+                        isinstance(b.value, ast.Name) and b.value.id == loop.target.id and \
+                        C.rd.defs(C.at(b), loop.target.id) == {hdr}:
+                    nv, vv = b.targets[0].elts[0].id, b.targets[0].elts[1].id
+                    bind = C.at(b)
+                    break
+        if nv is None:
+            out.unsure(fn, loop, 'case entries are not unpacked as (name, value)')
+            return
     body = set(g.body_nodes(loop))
     sets = []
     shape_ok = True
@@ -1931,11 +2036,11 @@ def apply(repo, out):
                 out.unsure(fn, n.ast, f'_set_design_var called with extra arguments {extra}')
                 shape_ok = False
                 continue
-        name_ok = isinstance(a0, ast.Name) and a0.id == nv and C.rd.defs(n, nv) == {hdr}
+        name_ok = isinstance(a0, ast.Name) and a0.id == nv and C.rd.defs(n, nv) == {bind}
 
         def val_ok(e):
             if isinstance(e, ast.Name):
-                return e.id == vv and C.rd.defs(n, vv) == {hdr}
+                return e.id == vv and C.rd.defs(n, vv) == {bind}
             if isinstance(e, ast.Call) and isinstance(e.func, ast.Attribute) and e.func.attr in _FLAT and not e.args:
                 return val_ok(e.func.value)
             if isinstance(e, ast.Call) and isinstance(e.func, ast.Attribute) and e.func.attr == 'reshape' and \
@@ -2457,6 +2562,78 @@ def order(repo, out):
                 out.ok(f, st, f'{label}: same order as the level table')
 
 
+# =========================================================================== unit conversion when a case value is applied
+DRV = 'openmdao/core/driver.py'
+
+
+@rule('C23.units', floor=2)
+def units(repo, out):
+    """Driver._set_design_var converts the applied value FROM the design-variable units TO the units of the source output."""
+    fn = repo.func(DRV, 'Driver._set_design_var')
+    C = ctx_of(fn)
+    params = [a.arg for a in fn.node.args.args]
+
+    def role(e, at, depth=0):
+        """'dv' (units the value is given in) | 'src' (units of the model output) | None."""
+        if depth > 4:
+            return None
+        if isinstance(e, ast.Name):
+            ds = C.rd.defs(at, e.id)
+            if ds == {C.g.entry} and e.id in params and 'unit' in e.id:
+                return 'dv'
+            v = C.rd.value(at, e.id)
+            if v is not None:
+                return role(v, next(iter(ds)), depth + 1)
+            return None
+        if isinstance(e, ast.Subscript) and astx.const_str(e.slice) == 'units':
+            b = e.value
+            if isinstance(b, ast.Name):
+                v = C.rd.value(at, b.id)
+                if v is not None and isinstance(v, ast.Subscript) and astx.path(v.value) == 'self._designvars':
+                    return 'dv'
+                return None
+            if isinstance(b, ast.Subscript) and astx.path(b.value) == 'self._designvars':
+                return 'dv'
+            p = astx.path(b) or ''
+            if 'abs2meta' in p and "['output']" in p:
+                return 'src'
+        return None
+    calls = [(n, c) for n in C.g.nodes if n.kind == 'stmt' for c in n.calls() if astx.callee_attr(c) == 'convert_units']
+    if not calls:
+        raise AnalysisError(f'{fn.ident}: no convert_units call')
+    for n, c in calls:
+        if len(c.args) != 3 or c.keywords:
+            out.unsure(fn, n.ast, 'convert_units call shape not recognised')
+            continue
+        val, frm, to = c.args
+        rf, rt = role(frm, n), role(to, n)
+        if rf is None or rt is None:
+            out.unsure(fn, n.ast, f'units `{astx.src(frm)}` / `{astx.src(to)}` not recognised')
+            continue
+        if (rf, rt) != ('dv', 'src'):
+            out.bad(fn, n.ast, f'the applied value is converted from {"the source output" if rf == "src" else "design-variable"} '
+                    f'units (`{astx.src(frm)}`) to {"the source output" if rt == "src" else "design-variable"} units '
+                    f'(`{astx.src(to)}`); a value given in design-variable units must be converted FROM them TO the '
+                    'units of the source output: with differing units the model is evaluated at another point than the '
+                    'generated case (and outside the declared bounds)', key='units-direction')
+            continue
+        # converted value is the stored one and goes back to the same slot
+        tgt = n.ast.targets[0] if isinstance(n.ast, ast.Assign) and len(n.ast.targets) == 1 else None
+        if tgt is None or not astx.same(tgt, val):
+            out.unsure(fn, n.ast, 'converted value is not written back to the slot it was read from')
+            continue
+        # the branch is taken exactly when these units are given
+        gd = next((a for a in astx.ancestors(n.ast) if isinstance(a, ast.If)), None)
+        cands = [frm]
+        if isinstance(frm, ast.Name) and C.rd.value(n, frm.id) is not None:
+            cands.append(C.rd.value(n, frm.id))
+        if gd is None or not any(astx.same(w_, c_) for w_ in astx.walk(gd.test) for c_ in cands):
+            out.unsure(fn, n.ast, f'conversion is not guarded by a test on `{astx.src(frm)}`')
+            continue
+        out.ok(fn, n.ast, f'value converted from `{astx.src(frm)}` (design-variable units) to the source units and '
+               'written back to the same elements')
+
+
 # =========================================================================== self-test (part 1: pyDOE)
 _TAB_DG = ("            for k in range(size):\n"
            "                lower = meta['lower']\n"
@@ -2727,4 +2904,67 @@ selftest(
     Twin('twin-seed-sampling-rng-in-setup', SU, "        if self._seed is not None:\n            np.random.seed(self._seed)\n",
          "        self._rng = np.random.default_rng(self._seed)\n",
          also=[(SU, "np.random.uniform(meta['lower']", "self._rng.uniform(meta['lower']")]),
+)
+
+
+# =========================================================================== self-test (robustness round: accepted idiom classes)
+selftest(
+    'C23',
+    # hoisted per-variable lookups + conditional expressions for the per-element bound (benign C23_1)
+    Twin('twin-table-hoisted-ifexp', DG,
+         "            size = _get_size(meta)\n\n            for k in range(size):\n"
+         "                lower = meta['lower']\n                if isinstance(lower, np.ndarray):\n                    lower = lower[k]\n\n"
+         "                upper = meta['upper']\n                if isinstance(upper, np.ndarray):\n                    upper = upper[k]\n\n"
+         "                levels = self._get_dv_levels(name)\n",
+         "            size = _get_size(meta)\n            levels = self._get_dv_levels(name)\n"
+         "            dv_lower = meta['lower']\n            dv_upper = meta['upper']\n\n            for k in range(size):\n"
+         "                lower = dv_lower[k] if isinstance(dv_lower, np.ndarray) else dv_lower\n"
+         "                upper = dv_upper[k] if isinstance(dv_upper, np.ndarray) else dv_upper\n\n"),
+    # ... the same shape must still be caught when the element index is wrong
+    Mutant('table-hoisted-ifexp-elem-zero', DG,
+           "                lower = meta['lower']\n                if isinstance(lower, np.ndarray):\n                    lower = lower[k]\n\n                upper = meta['upper']\n",
+           "                dv_lower = meta['lower']\n                lower = dv_lower[0] if isinstance(dv_lower, np.ndarray) else dv_lower\n\n                upper = meta['upper']\n",
+           'C23.table'),
+    # keys + lookup instead of items(), end temporary, `col = end`, if/else broadcast, inlined value (benign C23_2)
+    Twin('twin-lhs-keys-lookup-end-temp', DG,
+         "            for name, meta in design_vars.items():\n                size = meta['size']\n                sample = row[col:col + size]\n\n"
+         "                lower = meta['lower']\n                if not isinstance(lower, np.ndarray):\n                    lower = lower * np.ones(size)\n\n"
+         "                upper = meta['upper']\n                if not isinstance(upper, np.ndarray):\n                    upper = upper * np.ones(size)\n\n"
+         "                val = lower + sample * (upper - lower)\n\n                retval.append((name, val))\n                col += size\n",
+         "            for name in design_vars:\n                meta = design_vars[name]\n                dv_size = meta['size']\n"
+         "                end = col + dv_size\n                sample = row[col:end]\n\n"
+         "                lower = meta['lower']\n                if isinstance(lower, np.ndarray):\n                    lower_arr = lower\n"
+         "                else:\n                    lower_arr = lower * np.ones(dv_size)\n\n"
+         "                upper = meta['upper']\n                if isinstance(upper, np.ndarray):\n                    upper_arr = upper\n"
+         "                else:\n                    upper_arr = upper * np.ones(dv_size)\n\n"
+         "                retval.append((name, lower_arr + sample * (upper_arr - lower_arr)))\n                col = end\n"),
+    Mutant('lhs-end-temp-stale', DG, "                sample = row[col:col + size]\n", "                end = col + 1\n                sample = row[col:col + size]\n",
+           'C23.lhs', also=[(DG, "                col += size\n", "                col = end\n")]),
+    Mutant('lhs-inline-value-wrong', DG, "                val = lower + sample * (upper - lower)\n\n                retval.append((name, val))\n",
+           "                retval.append((name, lower + sample * upper))\n", 'C23.lhs'),
+    Twin('twin-index-step-assign-form', DG, "                row += size_i\n", "                row = row + size_i\n"),
+    # entry unpacked in the body, msg initialised before the try, inverted isinstance, check after the try (benign C23_3)
+    Twin('twin-apply-unpack-in-body', DD,
+         "        for dv_name, dv_val in case:\n            try:\n                msg = None\n" + _SET +
+         "            except ValueError as err:\n                msg = \"Error assigning %s = %s: \" % (dv_name, dv_val) + str(err)\n"
+         "            finally:\n                if msg:\n                    raise ValueError(msg)\n",
+         "        for dv in case:\n            dv_name, dv_val = dv\n            msg = None\n            try:\n"
+         "                if not isinstance(dv_val, np.ndarray):\n                    self._set_design_var(dv_name, dv_val)\n"
+         "                else:\n                    self._set_design_var(dv_name, dv_val.flatten())\n"
+         "            except ValueError as err:\n                msg = \"Error assigning %s = %s: \" % (dv_name, dv_val) + str(err)\n\n"
+         "            if msg:\n                raise ValueError(msg)\n"),
+    Mutant('apply-unpack-swapped', DD, "        for dv_name, dv_val in case:\n", "        for dv in case:\n            dv_val, dv_name = dv\n", 'C23.apply'),
+)
+
+
+selftest(
+    'C23',
+    Mutant('units-direction-meta', DRV, "convert_units(desvar[loc_idxs], meta['units'], src_units)",
+           "convert_units(desvar[loc_idxs], src_units, meta['units'])", 'C23.units'),
+    Mutant('units-direction-explicit', DRV, "convert_units(desvar[loc_idxs], units, src_units)",
+           "convert_units(desvar[loc_idxs], src_units, units)", 'C23.units'),
+    Mutant('units-same', DRV, "convert_units(desvar[loc_idxs], meta['units'], src_units)",
+           "convert_units(desvar[loc_idxs], meta['units'], meta['units'])", 'C23.units'),
+    Twin('twin-units-temp', DRV, "                desvar[loc_idxs] = convert_units(desvar[loc_idxs], meta['units'], src_units)",
+         "                dv_units = meta['units']\n                desvar[loc_idxs] = convert_units(desvar[loc_idxs], dv_units, src_units)"),
 )
